@@ -50,7 +50,7 @@ def e2(rnd, count, maxn):
                 beh = [1, 2, 4, -4] if api in ('someaux', 'amaux', 'naux', 'daux') else [1, 2, 4]
                 n = min(n, 300)
                 L = rnd.choice([n, n + 3, max(1, n // 2), 2 * n])
-                R = rnd.choice([1, 2, 3, 8, 9] + ([11, 12, 13, 18] if api in ('someaux', 'amaux') else []))
+                R = rnd.choice([1, 2, 3, 8, 9] + ([11, 12, 13, 18, 21, 22, 24] if api in ('someaux', 'amaux', 'naux', 'daux') else []))
                 if api in ('cbc', 'ncbc', 'dcbc', 'ssts', 'asts', 'nsts', 'dsts'):
                     R = 1
                 ss = [rnd.choice(beh) for _ in range(rnd.randint(0, 30))]
